@@ -363,6 +363,9 @@ impl Check for C20 {
         ];
         (proptest::collection::vec(gs(), 0..5), proptest::collection::vec(step, 3..max_steps)).prop_map(|(initial, steps)| Case { initial, steps }).boxed()
     }
+    fn max_shrink_iters(&self) -> u32 {
+        40
+    }
     fn cases(&self, tier: Tier) -> u64 {
         tier.pick(96, 3_000)
     }
